@@ -165,3 +165,27 @@ Proof.
   - assert (E : removelast (c :: d :: e :: r) = c :: d :: removelast (e :: r)) by reflexivity.
     rewrite E. unfold with_qs. destruct qs; [exact Ho|]. exact Ho.
 Qed.
+
+(* ---------- forwarding mode (no redirect code): what the router and the handler see *)
+Lemma ends_with_slash_snoc : forall p, ends_with_slash (p ++ ["/"]) = true.
+Proof. induction p as [|c r IH]; [reflexivity|]. cbn [app ends_with_slash].
+  destruct (r ++ ["/"]) eqn:E; [destruct r; discriminate|]. exact IH. Qed.
+
+Lemma add_forward_spec p qs :
+  fst (add_slash_forward p qs) = (if ends_with_slash p then p else p ++ ["/"]) /\
+  ends_with_slash (fst (add_slash_forward p qs)) = true /\
+  (snd (add_slash_forward p qs) = None <-> ends_with_slash p = true).
+Proof.
+  unfold add_slash_forward. destruct (ends_with_slash p) eqn:E; simpl.
+  - repeat split; auto.
+  - split; [reflexivity|]. split; [apply ends_with_slash_snoc|]. split; intro H; discriminate.
+Qed.
+
+Lemma remove_forward_spec p qs :
+  fst (remove_slash_forward p qs) = (if Nat.ltb 1 (List.length p) && ends_with_slash p then removelast p else p) /\
+  (snd (remove_slash_forward p qs) = None <-> (Nat.ltb 1 (List.length p) && ends_with_slash p) = false).
+Proof.
+  unfold remove_slash_forward. destruct (Nat.ltb 1 (List.length p) && ends_with_slash p) eqn:E; simpl.
+  - split; [reflexivity|]. split; intro H; discriminate.
+  - repeat split; auto.
+Qed.
